@@ -330,7 +330,7 @@ Proof.
 Qed.
 
 (* ---- the encoders read the views only through the sofas ---- *)
-Lemma find_sofa_ext (p : sofa -> bool) : forall vs1 vs2 : list cview, map v_sofa vs1 = map v_sofa vs2 ->
+Lemma views_find_sofa_ext (p : sofa -> bool) : forall vs1 vs2 : list cview, map v_sofa vs1 = map v_sofa vs2 ->
   option_map v_sofa (find (fun v => p (v_sofa v)) vs1) = option_map v_sofa (find (fun v => p (v_sofa v)) vs2).
 Proof.
   induction vs1 as [|a r IH]; intros [|b r2] E; cbn [map] in E; try discriminate; [reflexivity|].
@@ -338,7 +338,7 @@ Proof.
 Qed.
 Definition same_sofas (c1 c2 : cas) : Prop := c_heap c1 = c_heap c2 /\ map v_sofa (c_views c1) = map v_sofa (c_views c2).
 Lemma sofa_of_view_ext c1 c2 n : same_sofas c1 c2 -> sofa_of_view c1 n = sofa_of_view c2 n.
-Proof. intros [_ E]. unfold sofa_of_view. exact (find_sofa_ext (fun so => String.eqb (s_name so) n) _ _ E). Qed.
+Proof. intros [_ E]. unfold sofa_of_view. exact (views_find_sofa_ext (fun so => String.eqb (s_name so) n) _ _ E). Qed.
 
 Section EncExt.
 Variable fmt_flt : flt -> string.
@@ -405,6 +405,46 @@ Proof.
   intros Hfg. induction 1 as [|a a' l l' Ha _ IH]; intros ys H; cbn [mapM] in *; [exact H|].
   destruct (f a) as [b| |] eqn:Ea; cbn [bind] in *; try discriminate. rewrite (Hfg _ _ _ Ha Ea). cbn [bind].
   destruct (mapM f l) as [bs| |]; cbn [bind] in *; try discriminate. rewrite (IH bs eq_refl). exact H.
+Qed.
+
+(* ---- "only ids were added": composition, and the two steps of a save ---- *)
+Lemma only_ids_weaken c c1 (W W' : xid -> oid -> Prop) : (forall i o, W i o -> W' i o) -> only_ids_added c c1 W -> only_ids_added c c1 W'.
+Proof. intros HW (A & B & C & D & E). repeat split; try assumption; destruct (E o f f1 i H H0 H1 H2) as [X Y]; [lia|lia|auto]. Qed.
+Lemma only_ids_trans a b c (W1 W2 : xid -> oid -> Prop) : only_ids_added a b W1 -> only_ids_added b c W2 ->
+  only_ids_added a c (fun i o => W1 i o \/ W2 i o).
+Proof.
+  intros (A1 & B1 & C1 & D1 & E1) (A2 & B2 & C2 & D2 & E2).
+  split; [congruence|]. split; [congruence|]. split; [lia|]. split.
+  - intros o f i Eg Ei. destruct (D1 _ _ _ Eg Ei) as (f1 & Eg1 & Ei1). exact (D2 _ _ _ Eg1 Ei1).
+  - intros o f f2 i Eg Ei Eg2 Ei2.
+    destruct (shape_some _ _ o f (eq_sym B1) Eg) as (fb & Egb & _).
+    destruct (o_id fb) as [j|] eqn:Ej.
+    + destruct (D2 _ _ _ Egb Ej) as (g & Egg & Ejg). rewrite Eg2 in Egg. inversion Egg; subst g. assert (i = j) by congruence. subst j.
+      destruct (E1 _ _ _ _ Eg Ei Egb Ej) as [X Y]. split; [lia|left; exact Y].
+    + destruct (E2 _ _ _ _ Egb Ej Eg2 Ei2) as [X Y]. split; [lia|right; exact Y].
+Qed.
+(* the traversal *)
+Lemma find_all_only_ids inl s c seeds w : find_all_from inl s c seeds = Ok w -> only_ids_added c (cas_after c w) (listed (w_all w)).
+Proof.
+  intros E1. destruct (find_all_inv _ _ _ _ _ E1) as (popped & Iv & Hop & _).
+  destruct (ids_assigned _ _ _ _ _ E1) as (_ & K2 & _ & N0).
+  unfold only_ids_added, cas_after. cbn [c_views c_heap c_next_id].
+  split; [reflexivity|]. split; [exact (i_shape _ _ _ _ _ _ _ Iv)|]. split; [exact N0|]. split; [exact K2|].
+  intros o f f1 i Eg Ei Eg1 Ei1.
+  assert (Hp : In o popped).
+  { destruct (in_dec N.eq_dec o popped) as [Hin|Hni]; [exact Hin|]. rewrite (i_unpopped _ _ _ _ _ _ _ Iv o Hni) in Eg1. congruence. }
+  destruct (i_popped _ _ _ _ _ _ _ Iv o Hp) as [(g & Egn & Hn)|[(i' & Hi') _]].
+  - rewrite Eg in Egn. inversion Egn; subst g. unfold is_null_id in Hn. rewrite Ei in Hn. discriminate.
+  - destruct (i_all _ _ _ _ _ _ _ Iv _ _ Hi') as (_ & _ & g & Egg & Eig). rewrite Eg1 in Egg. inversion Egg; subst g.
+    assert (i' = i) by congruence. subst i'. pose proof (i_fresh _ _ _ _ _ _ _ Iv _ _ _ Hi' Eg Ei). split; [lia|exact Hi'].
+Qed.
+(* the sofa data arrays of the XMI writer *)
+Lemma asa_only_ids vs views h n all h' n' all' : add_sofa_arrays vs h n all = Ok (h', n', all') ->
+  only_ids_added (mkCas views h n) (mkCas views h' n') (listed all').
+Proof.
+  intros A1. destruct (asa_ids_le _ _ _ _ _ _ _ A1) as (L & N & I). unfold only_ids_added. cbn [c_views c_heap c_next_id].
+  split; [reflexivity|]. split; [exact (proj1 L)|]. split; [exact N|]. split; [exact (proj2 L)|].
+  intros o f f1 i Eg Ei Eg1 Ei1. exact (asa_new _ _ _ _ _ _ _ A1 o f f1 i Eg Ei Eg1 Ei1).
 Qed.
 
 Section XmiSave.
@@ -531,33 +571,368 @@ Proof.
 Qed.
 
 (* C14 (XMI): a save only gives ids to id-less structures that it writes, fresh from the generator *)
-Lemma written_only_ids s c c1 all : written s c = Ok (c1, all) -> only_ids_added c c1 all.
+Lemma written_only_ids s c c1 all : written s c = Ok (c1, all) -> only_ids_added c c1 (listed all).
 Proof.
   intros HW. unfold written in HW.
   destruct (find_all_fs false s c) as [w| |] eqn:E1; cbn [bind] in HW; try discriminate.
   destruct (add_sofa_arrays (c_views c) (w_heap w) (w_next w) (w_all w)) as [[[h1 n1] a1]| |] eqn:A1; cbn [bind fst snd] in HW; try discriminate.
   inversion HW; subst c1 all. clear HW. rewrite find_all_fs_from in E1.
-  destruct (asa_ids_le _ _ _ _ _ _ _ A1) as (L & N & I).
-  destruct (find_all_inv _ _ _ _ _ E1) as (popped & Iv & Hop & _).
-  destruct (ids_assigned _ _ _ _ _ E1) as (_ & K2 & _ & N0).
-  unfold only_ids_added. cbn [c_views c_heap c_next_id].
-  split; [reflexivity|]. split; [rewrite (proj1 L); exact (i_shape _ _ _ _ _ _ _ Iv)|]. split; [lia|]. split.
-  - intros o f i Eg Ei. destruct (K2 _ _ _ Eg Ei) as (f' & Eg' & Ei'). exact (proj2 L _ _ _ Eg' Ei').
-  - intros o f f1 i Eg Ei Eg1 Ei1.
-    destruct (shape_some _ _ o f (eq_sym (i_shape _ _ _ _ _ _ _ Iv)) Eg) as (fw & Egw & _).
-    destruct (o_id fw) as [j|] eqn:Ej.
-    + destruct (proj2 L _ _ _ Egw Ej) as (g & Eg2 & Ej2). rewrite Eg1 in Eg2. inversion Eg2; subst g. assert (i = j) by congruence. subst j.
-      assert (Hp : In o popped).
-      { destruct (in_dec N.eq_dec o popped) as [Hin|Hni]; [exact Hin|]. rewrite (i_unpopped _ _ _ _ _ _ _ Iv o Hni) in Egw. congruence. }
-      destruct (i_popped _ _ _ _ _ _ _ Iv o Hp) as [(g & Egn & Hn)|[(i' & Hi') _]].
-      * rewrite Eg in Egn. inversion Egn; subst g. unfold is_null_id in Hn. rewrite Ei in Hn. discriminate.
-      * destruct (i_all _ _ _ _ _ _ _ Iv _ _ Hi') as (_ & _ & g & Egg & Eig). rewrite Egw in Egg. inversion Egg; subst g.
-        assert (i' = i) by congruence. subst i'. pose proof (i_fresh _ _ _ _ _ _ _ Iv _ _ _ Hi' Eg Ei). split; [lia|apply I; exact Hi'].
-    + destruct (asa_new _ _ _ _ _ _ _ A1 o fw f1 i Egw Ej Eg1 Ei1) as [B Hin]. split; [lia|exact Hin].
+  eapply only_ids_weaken; [|eapply only_ids_trans; [exact (find_all_only_ids _ _ _ _ _ E1)|exact (asa_only_ids _ _ _ _ _ _ _ _ A1)]].
+  destruct (asa_ids_le _ _ _ _ _ _ _ A1) as (_ & _ & I). intros i o [H|H]; [apply I; exact H|exact H].
 Qed.
 Theorem xmi_save_preserves_content s c d c1 : save_xmi fmt_flt s c = Ok (d, c1) ->
-  exists all, written s c = Ok (c1, all) /\ only_ids_added c c1 all.
+  exists all, written s c = Ok (c1, all) /\ only_ids_added c c1 (listed all).
 Proof.
   intros HS. destruct (save_xmi_split fmt_flt s c d c1 HS) as (all & HW & _). exists all. split; [exact HW|exact (written_only_ids s c c1 all HW)].
 Qed.
 End XmiSave.
+
+(* ================================================================================================ part 3: the JSON writer *)
+From Cassis Require Import JsonDoc Json JsonProofs.
+Open Scope list_scope.
+Open Scope Z_scope.
+
+Lemma jmapM_ext_in {A B} (f g : A -> res B) l : (forall x, In x l -> f x = g x) -> mapM f l = mapM g l.
+Proof.
+  induction l as [|x r IH]; intros H; [reflexivity|]. cbn [mapM]. rewrite (H x (or_introl eq_refl)).
+  rewrite IH by (intros y Hy; apply H; right; exact Hy). reflexivity.
+Qed.
+Lemma jmapM_perm {A B} (f : A -> res B) l l' : Permutation l l' -> forall ys, mapM f l = Ok ys ->
+  exists ys', mapM f l' = Ok ys' /\ Permutation ys ys'.
+Proof.
+  induction 1 as [|x l l' _ IH|x y l|l l' l'' _ IH1 _ IH2]; intros ys H.
+  - exists ys. split; [exact H|apply Permutation_refl].
+  - cbn [mapM] in *. destruct (f x) as [b| |]; cbn [bind] in *; try discriminate.
+    destruct (mapM f l) as [bs| |]; cbn [bind] in *; try discriminate. inversion H; subst ys.
+    destruct (IH bs eq_refl) as (bs' & -> & P). cbn [bind]. exists (b :: bs'). split; [reflexivity|constructor; exact P].
+  - cbn [mapM] in *. destruct (f y) as [b| |]; cbn [bind] in *; try discriminate.
+    destruct (f x) as [a| |]; cbn [bind] in *; try discriminate.
+    destruct (mapM f l) as [bs| |]; cbn [bind] in *; try discriminate. inversion H; subst ys.
+    exists (a :: b :: bs). split; [reflexivity|constructor].
+  - destruct (IH1 ys H) as (ys1 & H1 & P1). destruct (IH2 ys1 H1) as (ys2 & H2 & P2). exists ys2. split; [exact H2|].
+    eapply Permutation_trans; eassumption.
+Qed.
+Lemma jmapM_Forall2_imp {A A' B} (f : A -> res B) (g : A' -> res B) (R : A -> A' -> Prop) :
+  (forall a a' b, R a a' -> f a = Ok b -> g a' = Ok b) ->
+  forall l l', Forall2 R l l' -> forall ys, mapM f l = Ok ys -> mapM g l' = Ok ys.
+Proof.
+  intros Hfg. induction 1 as [|a a' l l' Ha _ IH]; intros ys H; cbn [mapM] in *; [exact H|].
+  destruct (f a) as [b| |] eqn:Ea; cbn [bind] in *; try discriminate. rewrite (Hfg _ _ _ Ha Ea). cbn [bind].
+  destruct (mapM f l) as [bs| |]; cbn [bind] in *; try discriminate. rewrite (IH bs eq_refl). exact H.
+Qed.
+
+(* ---- the encoders read the views only through the sofas ---- *)
+Lemma jfind_sofa_ext c1 c2 n : same_sofas c1 c2 -> find_sofa c1 n = find_sofa c2 n.
+Proof. intros [_ E]. unfold find_sofa. exact (views_find_sofa_ext (fun so => String.eqb (s_name so) n) _ _ E). Qed.
+Section JEncExt.
+Variables (L : lex) (s : schema) (c1 c2 : cas).
+Hypothesis SS : same_sofas c1 c2.
+Lemma jref_id_ext v : ref_id c1 v = ref_id c2 v.
+Proof. destruct v; cbn [ref_id]; try reflexivity; [rewrite (proj1 SS); reflexivity|rewrite (jfind_sofa_ext c1 c2 n SS); reflexivity]. Qed.
+Lemma jref_json_ext v : ref_json c1 v = ref_json c2 v.
+Proof. unfold ref_json. rewrite jref_id_ext. reflexivity. Qed.
+Lemma jdoc_val_ext t f fd v : doc_val c1 s t f fd v = doc_val c2 s t f fd v.
+Proof.
+  unfold doc_val. destruct (isa s t T_ANNOTATION && is_offset_name (fd_xname fd)); [|reflexivity].
+  destruct (slot f "sofa"); try reflexivity. rewrite (jfind_sofa_ext c1 c2 n SS). reflexivity.
+Qed.
+Lemma jenc_value_ext fd v : Json.enc_value c1 s fd v = Json.enc_value c2 s fd v.
+Proof. unfold Json.enc_value. rewrite jref_json_ext. reflexivity. Qed.
+Lemma jenc_feature_ext t f fd : Json.enc_feature c1 s t f fd = Json.enc_feature c2 s t f fd.
+Proof.
+  unfold Json.enc_feature. destruct (is_vnone (slot f (fd_name fd))); [reflexivity|]. rewrite jdoc_val_ext.
+  destruct (doc_val c2 s t f fd (slot f (fd_name fd))); cbn [bind]; try reflexivity. apply jenc_value_ext.
+Qed.
+Lemma jenc_elements_ext t l : enc_elements L c1 t l = enc_elements L c2 t l.
+Proof.
+  unfold enc_elements. destruct (String.eqb t T_BYTE_ARRAY); [reflexivity|].
+  destruct (String.eqb t T_DOUBLE_ARRAY || String.eqb t T_FLOAT_ARRAY); [reflexivity|].
+  destruct (String.eqb t T_FS_ARRAY); [|reflexivity].
+  rewrite (jmapM_ext_in (ref_json c1) (ref_json c2)); [reflexivity|]. intros x _. apply jref_json_ext.
+Qed.
+Lemma jenc_fs_ext f : Json.enc_fs L s c1 f = Json.enc_fs L s c2 f.
+Proof.
+  unfold Json.enc_fs. destruct (is_array_name (o_type f)).
+  - destruct (nonempty_list (slot f "elements")); [|reflexivity]. rewrite jenc_elements_ext. reflexivity.
+  - destruct (sch_find s (o_type f)) as [ti|]; [|reflexivity].
+    rewrite (jmapM_ext_in (Json.enc_feature c1 s (o_type f) f) (Json.enc_feature c2 s (o_type f) f)); [reflexivity|].
+    intros fd _. apply jenc_feature_ext.
+Qed.
+Lemma jenc_sofa_ext sf : Json.enc_sofa L c1 sf = Json.enc_sofa L c2 sf.
+Proof. unfold Json.enc_sofa. destruct (s_arr sf); [rewrite jref_json_ext|]; reflexivity. Qed.
+Lemma jfs_at_ext io : fs_at c1 io = fs_at c2 io.
+Proof. unfold fs_at. rewrite (proj1 SS). reflexivity. Qed.
+End JEncExt.
+
+Lemma jenc_view_perm h v1 v2 e : view_perm v1 v2 -> Json.enc_view h v1 = Ok e -> Json.enc_view h v2 = Ok e.
+Proof.
+  intros [Es P]. unfold Json.enc_view, member_ids.
+  destruct (mapM _ (v_members v1)) as [ms| |] eqn:E1; cbn [bind]; try discriminate.
+  destruct (jmapM_perm _ _ _ P ms E1) as (ms' & -> & Pm). cbn [bind]. rewrite <- Es, (zsort_perm_eq _ _ Pm). auto.
+Qed.
+
+(* ---- the views loop when every sofa data array has an id: nothing is assigned ---- *)
+Lemma step_view_settled L s c fss views v :
+  (forall o, s_arr (v_sofa v) = Some o -> has_some_id (c_heap c) o) ->
+  step_view L s (Ok (c, fss, views)) v = do out <- view_out L s c v ;; Ok (c, fss ++ fst out, views ++ [snd out]).
+Proof.
+  intros Hid. unfold step_view, view_out, arr_out. cbn [bind].
+  destruct (Json.enc_view (c_heap c) v) as [jv| |]; cbn [bind]; try reflexivity.
+  destruct (s_arr (v_sofa v)) as [o|] eqn:Ea.
+  - destruct (Hid o eq_refl) as (f & i & Eg & Ei). rewrite Eg, Ei.
+    destruct (Json.enc_fs L s c f) as [m| |]; cbn [bind]; try reflexivity.
+    destruct (Json.enc_sofa L c (v_sofa v)) as [ms| |]; cbn [bind]; reflexivity.
+  - cbn [bind]. destruct (Json.enc_sofa L c (v_sofa v)) as [ms| |]; cbn [bind]; reflexivity.
+Qed.
+Lemma loop_settled L s : forall vs c fss views,
+  (forall v o, In v vs -> s_arr (v_sofa v) = Some o -> has_some_id (c_heap c) o) ->
+  fold_left (step_view L s) vs (Ok (c, fss, views))
+  = do outs <- mapM (view_out L s c) vs ;; Ok (c, fss ++ List.concat (map fst outs), views ++ map snd outs).
+Proof.
+  induction vs as [|v r IH]; intros c fss views Hid.
+  - cbn [fold_left mapM bind map List.concat]. rewrite !app_nil_r. reflexivity.
+  - cbn [fold_left mapM]. rewrite step_view_settled by (intros o Ho; apply (Hid v o); [left; reflexivity|exact Ho]).
+    destruct (view_out L s c v) as [out| |]; cbn [bind]; [|apply fold_step_err|apply fold_step_oof].
+    rewrite IH by (intros v' o Hv; apply Hid; right; exact Hv).
+    destruct (mapM (view_out L s c) r) as [outs| |]; cbn [bind map List.concat]; try reflexivity.
+    rewrite <- !app_assoc. reflexivity.
+Qed.
+Lemma view_out_variant L s c1 c2 v1 v2 out : same_sofas c1 c2 -> view_perm v1 v2 ->
+  view_out L s c1 v1 = Ok out -> view_out L s c2 v2 = Ok out.
+Proof.
+  intros SS VP. pose proof VP as [Es _]. unfold view_out, arr_out. rewrite <- Es, <- (proj1 SS).
+  destruct (Json.enc_view (c_heap c1) v1) as [jv| |] eqn:Ev; cbn [bind]; try discriminate.
+  rewrite (jenc_view_perm _ _ _ _ VP Ev). cbn [bind].
+  rewrite <- (jenc_sofa_ext L c1 c2 SS).
+  destruct (s_arr (v_sofa v1)); [|auto]. destruct (hget (c_heap c1) o); [|auto]. rewrite <- (jenc_fs_ext L s c1 c2 SS). auto.
+Qed.
+
+Section JsonSave.
+Variables (L : lex) (s : schema) (mode : tsmode).
+
+(* the document as a function of the loop's outputs and the traversal's result *)
+Definition json_doc (c2 : cas) (outs : list (list json * (string * json))) (w : wstate) : res json :=
+  let found := sort_ids (w_all w) in
+  do fss <- mapM (fun io => do f <- fs_at c2 io ;; do m <- Json.enc_fs L s c2 f ;; Ok (JObj m)) found ;;
+  do used <- mapM (fun io => do f <- fs_at c2 io ;; Ok (o_type f)) found ;;
+  do types <- ser_types s mode used ;;
+  Ok (JObj (types ++ [(K_FS, JArr (List.concat (map fst outs) ++ fss)); (K_VIEWS, JObj (map snd outs))])).
+Lemma save_json_unfold c c1 outs w :
+  save_found L s c = Ok (c1, List.concat (map fst outs), map snd outs, w) ->
+  save_json L s mode c = do d <- json_doc (cas_after c1 w) outs w ;; Ok (d, cas_after c1 w).
+Proof.
+  intros E. unfold save_json, json_doc. rewrite E. cbn [bind].
+  destruct (mapM _ (sort_ids (w_all w))) as [fss| |]; cbn [bind]; try reflexivity.
+  destruct (mapM _ (sort_ids (w_all w))) as [used| |]; cbn [bind]; try reflexivity.
+  destruct (ser_types s mode used); reflexivity.
+Qed.
+Lemma json_doc_variant c1 c2 outs w1 w2 : same_sofas c1 c2 -> sort_ids (w_all w1) = sort_ids (w_all w2) ->
+  json_doc c1 outs w1 = json_doc c2 outs w2.
+Proof.
+  intros SS Es. unfold json_doc. rewrite <- Es.
+  rewrite (jmapM_ext_in (fun io => do f <- fs_at c1 io ;; do m <- Json.enc_fs L s c1 f ;; Ok (JObj m))
+                        (fun io => do f <- fs_at c2 io ;; do m <- Json.enc_fs L s c2 f ;; Ok (JObj m))).
+  2:{ intros io _. rewrite (jfs_at_ext c1 c2 SS). destruct (fs_at c2 io); cbn [bind]; try reflexivity. rewrite (jenc_fs_ext L s c1 c2 SS). reflexivity. }
+  rewrite (jmapM_ext_in (fun io => do f <- fs_at c1 io ;; Ok (o_type f)) (fun io => do f <- fs_at c2 io ;; Ok (o_type f))).
+  2:{ intros io _. rewrite (jfs_at_ext c1 c2 SS). reflexivity. }
+  reflexivity.
+Qed.
+
+Lemma reach_inb_parts inl c : reach_inb inl s c = true ->
+  wf_heapb inl s (c_heap c) = true /\ seeds_liveb (c_heap c) (member_seeds c) = true /\ ids_okb (c_heap c) (c_next_id c) = true.
+Proof. unfold reach_inb. rewrite !andb_true_iff. tauto. Qed.
+
+(* the traversal of a member-order variant of a settled CAS: nothing assigned, the same structures under the same ids *)
+Lemma find_all_variant inl c1 c2 w1 : reach_inb inl s c1 = true -> settled inl s c1 -> member_order_variant c1 c2 ->
+  find_all_fs inl s c1 = Ok w1 ->
+  w_heap w1 = c_heap c1 /\ w_next w1 = c_next_id c1 /\
+  exists w2, find_all_fs inl s c2 = Ok w2 /\ w_heap w2 = c_heap c2 /\ w_next w2 = c_next_id c2 /\ Permutation (w_all w1) (w_all w2).
+Proof.
+  intros RI [R1 Ar1] V E1. destruct (reach_inb_parts _ _ RI) as (Pwf & Psl & Pids).
+  pose proof (settled_variant inl s c1 c2 V (conj R1 Ar1)) as [R2 Ar2].
+  pose proof (variant_seeds _ _ V) as PS. pose proof V as (Eh & En & Hv).
+  rewrite find_all_fs_from in E1.
+  destruct (find_all_noassign _ _ _ _ _ E1 R1) as [Eh1 En1]. split; [exact Eh1|]. split; [exact En1|].
+  destruct (find_all_ok inl s c2 (member_seeds c2)) as (w2 & E2).
+  { rewrite <- Eh. exact Pwf. }
+  { rewrite <- Eh. unfold seeds_liveb. rewrite <- (forallb_perm_eq _ _ _ PS). exact Psl. }
+  { rewrite <- Eh, <- En. exact Pids. }
+  destruct (find_all_noassign _ _ _ _ _ E2 R2) as [Eh2 En2].
+  exists w2. rewrite find_all_fs_from. split; [exact E2|]. split; [exact Eh2|]. split; [exact En2|].
+  destruct (find_all_each_once _ _ _ _ _ E1) as [_ N1]. destruct (find_all_each_once _ _ _ _ _ E2) as [_ N2].
+  destruct (ids_assigned _ _ _ _ _ E1) as (I1 & _). destruct (ids_assigned _ _ _ _ _ E2) as (I2 & _).
+  assert (Half : forall ca cb wa wb, c_heap ca = c_heap cb -> Permutation (member_seeds ca) (member_seeds cb) ->
+            find_all_from inl s ca (member_seeds ca) = Ok wa -> find_all_from inl s cb (member_seeds cb) = Ok wb ->
+            w_heap wa = c_heap ca -> w_heap wb = c_heap cb ->
+            (forall i o, In (i, o) (w_all wa) -> exists f, hget (w_heap wa) o = Some f /\ o_id f = Some i) ->
+            (forall i o, In (i, o) (w_all wb) -> exists f, hget (w_heap wb) o = Some f /\ o_id f = Some i) ->
+            forall x, In x (w_all wa) -> In x (w_all wb)).
+  { intros ca cb wa wb Ehh PP Ea Eb Ha Hb Ia Ib [i o] Hio.
+    assert (Ho : In o (returned wb)).
+    { apply (find_all_exact _ _ _ _ _ Eb). rewrite <- Ehh.
+      destruct (proj1 (find_all_exact _ _ _ _ _ Ea o)) as [Rr Nn]; [apply returned_In; exists i; exact Hio|].
+      split; [|exact Nn]. eapply reach_seeds_ext; [|exact Rr]. intros x Hx. eapply Permutation_in; [exact PP|exact Hx]. }
+    apply returned_In in Ho. destruct Ho as (j & Hj).
+    destruct (Ia _ _ Hio) as (f & Eg & Ei). destruct (Ib _ _ Hj) as (g & Eg' & Ej).
+    rewrite Ha in Eg. rewrite Hb, <- Ehh in Eg'. assert (i = j) by congruence. subst j. exact Hj. }
+  apply NoDup_Permutation.
+  - eapply NoDup_map_inv. exact N1.
+  - eapply NoDup_map_inv. exact N2.
+  - intros x. split.
+    + apply (Half c1 c2 w1 w2 Eh PS E1 E2 Eh1 Eh2 I1 I2).
+    + apply (Half c2 c1 w2 w1 (eq_sym Eh) (Permutation_sym PS) E2 E1 Eh2 Eh1 I2 I1).
+Qed.
+
+Lemma cas_eta c : mkCas (c_views c) (c_heap c) (c_next_id c) = c.
+Proof. destruct c; reflexivity. Qed.
+
+(* C14 (JSON), independence of the select_all order *)
+Theorem json_save_member_order_independent c1 c2 d c1' :
+  reach_inb true s c1 = true -> settledb true s c1 = true -> member_order_variant c1 c2 ->
+  save_json L s mode c1 = Ok (d, c1') -> c1' = c1 /\ save_json L s mode c2 = Ok (d, c2).
+Proof.
+  intros RI SB V HS.
+  assert (Ew : exists w1, find_all_fs true s c1 = Ok w1).
+  { unfold settledb in SB. destruct (find_all_fs true s c1) as [w1| |]; [eauto| |]; rewrite andb_false_r in SB; discriminate. }
+  destruct Ew as (w1 & E1).
+  pose proof (proj1 (settledb_spec true s c1 w1 E1) SB) as ST. pose proof ST as [R1 Ar1].
+  pose proof (settled_variant true s c1 c2 V ST) as [R2 Ar2].
+  pose proof (variant_sofas _ _ V) as SS. pose proof V as (Eh & En & Hv).
+  (* the loops *)
+  pose proof (loop_settled L s (c_views c1) c1 [] [] Ar1) as Lp1. cbn [app] in Lp1.
+  pose proof (loop_settled L s (c_views c2) c2 [] [] Ar2) as Lp2. cbn [app] in Lp2.
+  unfold save_json in HS. unfold save_found in HS. rewrite Lp1 in HS.
+  destruct (mapM (view_out L s c1) (c_views c1)) as [outs| |] eqn:Eo; cbn [bind] in HS; try discriminate.
+  rewrite E1 in HS. cbn [bind] in HS.
+  destruct (find_all_variant true c1 c2 w1 RI ST V E1) as (Eh1 & En1 & w2 & E2 & Eh2 & En2 & Pall).
+  assert (Ec1 : cas_after c1 w1 = c1) by (unfold cas_after; rewrite Eh1, En1; apply cas_eta).
+  assert (Ec2 : cas_after c2 w2 = c2) by (unfold cas_after; rewrite Eh2, En2; apply cas_eta).
+  rewrite Ec1 in HS.
+  assert (Eo2 : mapM (view_out L s c2) (c_views c2) = Ok outs).
+  { apply (jmapM_Forall2_imp (view_out L s c1) (view_out L s c2) view_perm) with (l := c_views c1); [|exact Hv|exact Eo].
+    intros a a' b Ha. apply view_out_variant; [split; assumption|exact Ha]. }
+  assert (SF1 : save_found L s c1 = Ok (c1, List.concat (map fst outs), map snd outs, w1)).
+  { unfold save_found. rewrite Lp1. cbn [bind]. rewrite E1. reflexivity. }
+  assert (SF2 : save_found L s c2 = Ok (c2, List.concat (map fst outs), map snd outs, w2)).
+  { unfold save_found. rewrite Lp2, Eo2. cbn [bind]. rewrite E2. reflexivity. }
+  assert (HS' : save_json L s mode c1 = Ok (d, c1')).
+  { unfold save_json. rewrite SF1. cbn [bind]. rewrite Ec1. exact HS. }
+  rewrite (save_json_unfold c1 c1 outs w1 SF1), Ec1 in HS'.
+  rewrite (save_json_unfold c2 c2 outs w2 SF2), Ec2.
+  rewrite <- (json_doc_variant c1 c2 outs w1 w2 (conj Eh SS)).
+  2:{ apply sort_ids_perm_eq; [exact Pall|]. exact (proj1 (find_all_each_once _ _ _ _ _ E1)). }
+  destruct (json_doc c1 outs w1) as [d'| |]; cbn [bind] in *; try discriminate. inversion HS'; subst. split; reflexivity.
+Qed.
+Corollary json_save_member_set_independent c1 c2 d c1' :
+  reach_inb true s c1 = true -> settledb true s c1 = true -> member_set_variant c1 c2 -> members_nodup c1 -> members_nodup c2 ->
+  save_json L s mode c1 = Ok (d, c1') -> c1' = c1 /\ save_json L s mode c2 = Ok (d, c2).
+Proof. intros RI SB V N1 N2. apply json_save_member_order_independent; [exact RI|exact SB|apply set_variant_order; assumption]. Qed.
+
+(* C14 (JSON): saving again writes the same document and changes nothing *)
+Lemma arrays_bytes_of c cF : sofa_arrays_bytesb c = true -> ext c cF -> arrays_bytes cF (c_views c).
+Proof.
+  intros SB E v o f Hv Ho Hg. unfold sofa_arrays_bytesb in SB. rewrite forallb_forall in SB. specialize (SB v Hv). rewrite Ho in SB.
+  destruct (hget (c_heap c) o) as [f0|] eqn:Eg0; [|discriminate]. apply String.eqb_eq in SB.
+  destruct (proj2 E o f0 Eg0) as (f' & Eg' & T & _). rewrite Hg in Eg'. inversion Eg'; subst f'. rewrite T. exact SB.
+Qed.
+Theorem json_save_idempotent c d c2 : 0 < c_next_id c -> sofa_arrays_bytesb c = true ->
+  save_json L s mode c = Ok (d, c2) -> save_json L s mode c2 = Ok (d, c2).
+Proof.
+  intros Hpos SB HS. pose proof HS as HS0. unfold save_json in HS.
+  destruct (save_found L s c) as [[[[c1 sofa_fs] views] w]| |] eqn:Esf; cbn [bind] in HS; try discriminate.
+  destruct (save_found_stable L s c c1 sofa_fs views w Hpos Esf) as (Efold & Ew & Ew').
+  destruct (loop_spec L s _ _ _ _ _ _ _ Efold) as [X1 Hloop].
+  pose proof (find_all_ext s c1 w Ew) as X2.
+  assert (Ec2 : c2 = cas_after c1 w).
+  { destruct (mapM _ (sort_ids (w_all w))) as [fss| |] in HS; cbn [bind] in HS; try discriminate.
+    destruct (mapM _ (sort_ids (w_all w))) as [used| |] in HS; cbn [bind] in HS; try discriminate.
+    destruct (ser_types s mode used) in HS; cbn [bind] in HS; try discriminate. inversion HS; reflexivity. }
+  clear HS.
+  assert (X12 : ext c (cas_after c1 w)) by (eapply ext_trans; eassumption).
+  destruct (Hloop (cas_after c1 w) X2 (arrays_bytes_of c _ SB X12)) as (outs & Houts & Hsfs & Hvws). cbn [app] in Hsfs, Hvws. subst sofa_fs views.
+  rewrite (save_json_unfold c c1 outs w Esf) in HS0.
+  (* the second save: every sofa data array has its id, so the loop changes nothing; the traversal is stable *)
+  assert (Hv2 : c_views (cas_after c1 w) = c_views c) by (rewrite (proj1 X12); reflexivity).
+  assert (Ar2 : forall v o, In v (c_views (cas_after c1 w)) -> s_arr (v_sofa v) = Some o -> has_some_id (c_heap (cas_after c1 w)) o).
+  { intros v o Hv Ho. rewrite Hv2 in Hv.
+    (* the loop of the first save handed it an id (or it had one) *)
+    assert (Hl : forall vs cA fssA vwsA cB fssB vwsB, fold_left (step_view L s) vs (Ok (cA, fssA, vwsA)) = Ok (cB, fssB, vwsB) ->
+               In v vs -> has_some_id (c_heap cB) o).
+    { induction vs as [|v0 r IH]; intros cA fssA vwsA cB fssB vwsB Hf Hin; [destruct Hin|].
+      cbn [fold_left] in Hf. destruct (step_view L s (Ok (cA, fssA, vwsA)) v0) as [[[cM fssM] vwsM]|e|] eqn:E1;
+        [|rewrite fold_step_err in Hf; discriminate|rewrite fold_step_oof in Hf; discriminate].
+      destruct Hin as [->|Hin]; [|exact (IH _ _ _ _ _ _ Hf Hin)].
+      destruct (loop_spec L s _ _ _ _ _ _ _ Hf) as [XM _].
+      assert (HM : has_some_id (c_heap cM) o).
+      { unfold step_view in E1. cbn [bind] in E1. destruct (Json.enc_view (c_heap cA) v) as [jv| |]; cbn [bind] in E1; try discriminate.
+        rewrite Ho in E1. destruct (hget (c_heap cA) o) as [f|] eqn:Eg; [|discriminate].
+        destruct (o_id f) as [i|] eqn:Ei.
+        - destruct (Json.enc_fs L s cA f); cbn [bind] in E1; try discriminate.
+          destruct (Json.enc_sofa L cA (v_sofa v)); cbn [bind] in E1; try discriminate. inversion E1; subst. exists f, i. split; assumption.
+        - destruct (Json.enc_fs L s _ _); cbn [bind] in E1; try discriminate.
+          destruct (Json.enc_sofa L _ (v_sofa v)); cbn [bind] in E1; try discriminate. inversion E1; subst. cbn [c_heap].
+          exists (set_id f (c_next_id cA)), (c_next_id cA). split; [eapply hget_hset_same; exact Eg|reflexivity]. }
+      destruct HM as (f & i & Eg & Ei). destruct (proj2 XM o f Eg) as (f' & Eg' & _ & _ & I). exists f', i. split; [exact Eg'|apply I; exact Ei]. }
+    destruct (Hl _ _ _ _ _ _ _ Efold Hv) as (f & i & Eg & Ei).
+    destruct (proj2 X2 o f Eg) as (f' & Eg' & _ & _ & I). exists f', i. split; [exact Eg'|apply I; exact Ei]. }
+  pose proof (loop_settled L s (c_views (cas_after c1 w)) (cas_after c1 w) [] [] Ar2) as Lp2. cbn [app] in Lp2. rewrite Hv2 in Lp2.
+  assert (SF2 : save_found L s (cas_after c1 w) = Ok (cas_after c1 w, List.concat (map fst outs), map snd outs, w)).
+  { unfold save_found. rewrite Hv2, Lp2, Houts. cbn [bind]. rewrite Ew'. reflexivity. }
+  assert (Eaa : cas_after (cas_after c1 w) w = cas_after c1 w) by reflexivity.
+  rewrite Ec2. rewrite (save_json_unfold _ _ outs w SF2), Eaa.
+  destruct (json_doc (cas_after c1 w) outs w) as [d'| |]; cbn [bind] in *; try discriminate. inversion HS0; subst. reflexivity.
+Qed.
+
+(* C14 (JSON): a save only gives ids to id-less structures that it writes *)
+Lemma step_view_only_ids c fss views v c1 fss1 views1 :
+  step_view L s (Ok (c, fss, views)) v = Ok (c1, fss1, views1) ->
+  only_ids_added c c1 (fun _ o => s_arr (v_sofa v) = Some o).
+Proof.
+  unfold step_view. cbn [bind].
+  assert (Hrefl : forall W, only_ids_added c c W).
+  { intros W. split; [reflexivity|]. split; [reflexivity|]. split; [lia|]. split; [eauto|]. intros; congruence. }
+  destruct (Json.enc_view (c_heap c) v) as [jv| |]; cbn [bind]; try discriminate.
+  destruct (s_arr (v_sofa v)) as [o|] eqn:Ea.
+  - destruct (hget (c_heap c) o) as [f|] eqn:Ef; cbn [bind]; [|discriminate].
+    destruct (o_id f) as [i0|] eqn:Ei0.
+    + destruct (Json.enc_fs L s c f); cbn [bind]; try discriminate. destruct (Json.enc_sofa L c (v_sofa v)); cbn [bind]; try discriminate.
+      intros [= <- _ _]. apply Hrefl.
+    + destruct (Json.enc_fs L s _ _); cbn [bind]; try discriminate. destruct (Json.enc_sofa L _ (v_sofa v)); cbn [bind]; try discriminate.
+      intros [= <- _ _]. pose proof (ids_le_hset _ _ _ (c_next_id c) Ef Ei0) as Lh.
+      unfold only_ids_added. cbn [c_views c_heap c_next_id]. split; [reflexivity|]. split; [exact (proj1 Lh)|]. split; [lia|]. split; [exact (proj2 Lh)|].
+      intros o' g g1 i Eg Ei Eg1 Ei1. destruct (N.eq_dec o' o) as [->|Hne].
+      * rewrite (hget_hset_same _ _ _ _ Ef) in Eg1. inversion Eg1; subst g1. cbn [set_id o_id] in Ei1. inversion Ei1; subst i. split; [lia|reflexivity].
+      * rewrite (hget_hset_other _ _ _ _ Hne) in Eg1. congruence.
+  - cbn [bind]. destruct (Json.enc_sofa L c (v_sofa v)); cbn [bind]; try discriminate. intros [= <- _ _]. apply Hrefl.
+Qed.
+Lemma loop_only_ids : forall vs c fss views cN fssN viewsN,
+  fold_left (step_view L s) vs (Ok (c, fss, views)) = Ok (cN, fssN, viewsN) ->
+  only_ids_added c cN (fun _ o => exists v, In v vs /\ s_arr (v_sofa v) = Some o).
+Proof.
+  induction vs as [|v r IH]; intros c fss views cN fssN viewsN H.
+  - cbn [fold_left] in H. inversion H; subst. split; [reflexivity|]. split; [reflexivity|]. split; [lia|]. split; [eauto|]. intros; congruence.
+  - cbn [fold_left] in H. destruct (step_view L s (Ok (c, fss, views)) v) as [[[c1 fss1] views1]|e|] eqn:E1;
+      [|rewrite fold_step_err in H; discriminate|rewrite fold_step_oof in H; discriminate].
+    eapply only_ids_weaken; [|eapply only_ids_trans; [exact (step_view_only_ids _ _ _ _ _ _ _ E1)|exact (IH _ _ _ _ _ _ H)]].
+    intros i o [Ho|(v' & Hv' & Ho)]; [exists v; split; [left; reflexivity|exact Ho]|exists v'; split; [right; exact Hv'|exact Ho]].
+Qed.
+Theorem json_save_preserves_content c d c2 : save_json L s mode c = Ok (d, c2) ->
+  exists c1 sofa_fs views w, save_found L s c = Ok (c1, sofa_fs, views, w) /\ c2 = cas_after c1 w /\
+    only_ids_added c c2 (fun i o => In o (sofa_arrays c) \/ In (i, o) (w_all w)).
+Proof.
+  intros HS. unfold save_json in HS.
+  destruct (save_found L s c) as [[[[c1 sofa_fs] views] w]| |] eqn:Esf; cbn [bind] in HS; try discriminate.
+  assert (Ec2 : c2 = cas_after c1 w).
+  { destruct (mapM _ (sort_ids (w_all w))) as [fss| |] in HS; cbn [bind] in HS; try discriminate.
+    destruct (mapM _ (sort_ids (w_all w))) as [used| |] in HS; cbn [bind] in HS; try discriminate.
+    destruct (ser_types s mode used) in HS; cbn [bind] in HS; try discriminate. inversion HS; reflexivity. }
+  exists c1, sofa_fs, views, w. split; [reflexivity|]. split; [exact Ec2|]. subst c2.
+  unfold save_found in Esf.
+  destruct (fold_left (step_view L s) (c_views c) (Ok (c, [], []))) as [[[c1' sfs] vws]| |] eqn:Efold; cbn [bind] in Esf; try discriminate.
+  destruct (find_all_fs true s c1') as [w0| |] eqn:Ew; cbn [bind] in Esf; try discriminate. inversion Esf; subst c1' sfs vws w0.
+  rewrite find_all_fs_from in Ew.
+  eapply only_ids_weaken; [|eapply only_ids_trans; [exact (loop_only_ids _ _ _ _ _ _ _ Efold)|exact (find_all_only_ids _ _ _ _ _ Ew)]].
+  intros i o [(v & Hv & Ho)|H]; [left|right; exact H].
+  unfold sofa_arrays. apply in_flat_map. exists v. split; [exact Hv|]. rewrite Ho. left. reflexivity.
+Qed.
+End JsonSave.
